@@ -250,15 +250,16 @@ def opt_kwargs(opt):
 
 def cell_tla(c):
     return ('[id |-> %d, form |-> "%s", x |-> "%s", bom |-> %s, cm |-> "%s", ie |-> "%s", c |-> <<"%s", "%s">>, '
-            'path |-> "%s", oe |-> "%s", errs |-> "%s", opt |-> "%s", bj |-> "%s", bp |-> "%s", ent |-> "%s"]'
+            'path |-> "%s", oe |-> "%s", errs |-> "%s", opt |-> "%s", bj |-> "%s", bp |-> "%s", ent |-> "%s", dp |-> "%s", dc |-> "%s"]'
             % (c["id"], c["form"], c["x"], "TRUE" if c["bom"] else "FALSE", c["cm"], c["ie"], c["c"][0], c["c"][1],
-               c["path"], c["oe"], c["errs"], c["opt"], c["bj"], c["bp"], c["ent"]))
+               c["path"], c["oe"], c["errs"], c["opt"], c["bj"], c["bp"], c["ent"], c["dp"], c["dc"]))
 
 
 CFG = """CONSTANTS Codecs <- T_Spellings  Canon <- T_Canon  EncT <- T_EncT  DecT <- T_DecT  EncE <- T_EncE  Prefix <- T_Prefix  JunkT <- T_JunkT
 CONSTANTS Cells <- NoCells  Emit = %s
 SPECIFICATION %s
 INVARIANT Precedence
+INVARIANT DecoysIgnored
 INVARIANT ErrorsExact
 INVARIANT SameTemplateAsDecodedText
 INVARIANT RenderUnicodeIgnoresOutputEncoding
@@ -286,6 +287,8 @@ def make_cells(run, tb):
         kw["id"] = len(cells) + 1
         kw.setdefault("bj", NONE)
         kw.setdefault("bp", NONE)
+        kw.setdefault("dp", NONE)
+        kw.setdefault("dc", NONE)
         kw["variant"] = rng.randrange(1 << 16)
         # module-layout options: mostly on the module-file paths, where the header matters; given through a
         # TemplateLookup instead of Template on about half of the file-based cells
@@ -346,6 +349,17 @@ def make_cells(run, tb):
                     add(form="bytes", x=x, bom=bom, cm=cm, ie=ie,
                         c=[rng.choice(rep), rng.choice(rep)], path=rng.choice(["bytes", "file", "moddir", "reload"]),
                         oe=NONE, errs="strict", bj=j, bp=pos)
+    # lines that merely LOOK like a coding declaration, below line 1 (a declaration counts on the first line only):
+    # position x the codec they name (a foreign one, or the true one -- a "declaration" on line 2 is not one) x declaration
+    for x in TRUE_CODECS:
+        rep = tb["rep"][x]
+        na = [r for r in rep if r != "A"] or rep
+        others = [c for c in TRUE_CODECS if c != x]
+        for dp in DECOYS:
+            for cm, ie in ((NONE, NONE), (NONE, x), (x, NONE)):
+                add(form="bytes", x=x, bom=False, cm=cm, ie=ie, c=[rng.choice(na), rng.choice(rep)],
+                    path=rng.choice(["bytes", "file", "moddir", "reload"]), oe=NONE, errs="strict",
+                    dp=dp, dc=x if rng.random() < 0.2 else rng.choice(others))
     # a str given directly: never decoded, the comment still is not content
     for cm in [NONE] + spell:
         for ie in (NONE, "latin_1", "shift_jis"):
@@ -406,16 +420,40 @@ def _place(lines, pos):
     return lines
 
 
+# decoy: (the lines put into the template, what they write) -- {D} is the codec name; all of them contain a line that
+# the magic-comment regexp would match if it were tried anywhere but at the start of the input
+DECOYS = {
+    "line2": ("# -*- coding: {D} -*-\n", "# -*- coding: {D} -*-\n"),            # the line right after the first line: plain text
+    "line3": ("#!shebang\n# vim: set fileencoding={D} :\n", "#!shebang\n# vim: set fileencoding={D} :\n"),
+    "mid": ("# coding={D}\n", "# coding={D}\n"),
+    "intext": ("<%text>\n# -*- coding: {D} -*-\n</%text>\n", "\n# -*- coding: {D} -*-\n\n"),
+    "incomment": ("## -*- coding: {D} -*-\n", ""),                              # a template comment
+    "indoc": ("<%doc>\n# coding: {D}\n</%doc>\n", "\n"),
+    "instring": ("<% z = \"\"\"\n# coding= {D}\n\"\"\" %>\n", "\n"),              # inside a Python string literal
+}
+
+
+def _decoy(lines, cell, which):
+    if cell["dp"] == NONE:
+        return lines
+    lines = list(lines)
+    piece = DECOYS[cell["dp"]][which].replace("{D}", PY[cell["dc"]])
+    # line 1 of the FILE is the magic comment when there is one, else the first line of the body
+    k = {"line2": 0 if cell["cm"] != NONE else 1, "line3": 0 if cell["cm"] != NONE else 1}.get(cell["dp"], 3)
+    lines.insert(k, piece)
+    return lines
+
+
 def body_of(cell):
     # a <%! %> block is hoisted to the top of the generated module wherever it stands; it writes nothing
     b = BODY
     if cell["opt"] in ("modblock", "combo"):
         b = ["<%! MODX = '{1} ' %>" + BODY[0]] + BODY[1:]
-    return _place(b, cell["bp"])
+    return _decoy(_place(b, cell["bp"]), cell, 0)
 
 
 def out_of(cell):
-    return _place(OUT, cell["bp"])
+    return _decoy(_place(OUT, cell["bp"]), cell, 1)
 
 
 MARK = "@@J@@"
@@ -692,7 +730,7 @@ def check(run):
     res = run.tlc("MC_Encoding", CFG % ("FALSE", "SpecOut" if run.thorough and not skip else "SpecOutDiag"), name="mc-out", extra_files=xf, workers=workers, heap="3g")
     if res.violated:
         run.spec_violation(res)
-    grids = (["SpecIn", "SpecBad"] if run.thorough else ["SpecInDiag", "SpecBadDiag"]) if not skip else []
+    grids = (["SpecIn", "SpecBad"] if run.thorough else ["SpecInDiag", "SpecBadDiag"]) + ["SpecDecoy" if run.thorough else "SpecDecoyDiag"] if not skip else []
     for g in grids:
         res = run.tlc("MC_Encoding", CFG % ("FALSE", g), name="mc-" + g, extra_files=xf, workers=workers, timeout=1500, heap="3g")
         if res.violated:
@@ -777,10 +815,11 @@ def check(run):
                 pth = c["path"] if which != "first" or c["path"] != "reload" else "moddir"
                 sig = "%s:%s:%s" % (clause, pth, decl_style(c)) + (":opt=" + c["opt"] if c["opt"] != "none" else "") + \
                     (":entry=" + c["ent"] if c["ent"] in ("put_string", "put_template") else "") + \
+                    (":decoy@" + c["dp"] if c["dp"] != NONE else "") + \
                     (":junk=%s@%s" % (JUNK_KIND.get(c["bj"], "truncated"), c["bp"]) if c["bj"] != NONE else "")
                 nviol += 1
                 run.violation(sig, "cell %s on path %s: clause %s differs; expected %s, observed %s"
-                              % ({k: c[k] for k in ("form", "x", "bom", "cm", "ie", "c", "oe", "errs", "opt", "ent", "bj", "bp")}, pth, clause,
+                              % ({k: c[k] for k in ("form", "x", "bom", "cm", "ie", "c", "oe", "errs", "opt", "ent", "bj", "bp", "dp", "dc")}, pth, clause,
                                  _short(alts[0]), _short(obs)),
                               {"cell": c, "template": jobs[c["id"] - 1]["raw"], "expected": alts, "observed": obs,
                                "symbols": {s: SYM[s] for s in set(c["c"]) | set(sum([e.get("uni", []) for e in expected[c["id"]]], []))}})
